@@ -16,3 +16,4 @@ INVARIANT L_Sandwich
 INVARIANT L_PermInvariant
 INVARIANT L_StatsOfHJ
 INVARIANT L_Chi2
+INVARIANT L_Fold
